@@ -284,6 +284,25 @@ ADDED6 = {
 }
 
 
+ADDED7 = {
+ 'C01': ('', ' Round 7: the three tokens of the request line are taken exactly (no trimming, no search-and-slice of the target).'),
+ 'C02': ('', ' Round 7: request-line tokens taken exactly (shared with C01).'),
+ 'C03': ('', ' Round 7: a str slice bound must be a position in the string that is sliced (not in a case-folded / trimmed copy).'),
+ 'C04': ('', ' Round 7: which requests count as WebSocket upgrades depends on the Upgrade header alone, in both runtimes.'),
+ 'C06': ('', ' Round 7: the redirect Location is the whole request target plus "/"; the cache is keyed by the request path as matched (C16 key rule).'),
+ 'C07': ('', ' Round 7: edits of the header list keep the remaining fields in order; body framing of the response parser depends on the headers only, any HTTP version token is accepted.'),
+ 'C08': ('', ' Round 7: every execute site is reached only after start() on that pool.'),
+ 'C09': ('', ' Round 7: response framing by headers / any version (shared with C07); the header-name table is a bijection (shared with C02).'),
+ 'C10': ('', ' Round 7: the masking key is appended exactly when the mask flag is set.'),
+ 'C11': ('', ' Round 7: the connection is wrapped as a WebsocketStream only after the handshake returned Ok.'),
+ 'C12': ('', ' Round 7: every pass walks the stream table anew; a new stream is stored under its own peer address.'),
+ 'C13': ('', ' Round 7: nothing in the parser folds the case of scanned text.'),
+ 'C14': ('', ' Round 7: corpus members with the empty key and with fields named like the generated bindings.'),
+ 'C15': ('', ' Round 7: end of file inside a section is an error in included files too; a host\'s routes are exactly the parsed ones.'),
+ 'C17': ('', ' Round 7: a renewed expiry is written back on every Ok path of refresh_session.'),
+}
+
+
 NOT_APPLICABLE = {
     "C05": "Correctness of the wildcard matcher is a language-equivalence fact about a loop with data-dependent backtracking over all "
            "(pattern, text) pairs; no necessary condition visible in the shape of the code separates the current (wrong on '*aab'/'aaab') "
@@ -312,6 +331,8 @@ def main():
                 tech, text = tech + ADDED5[pid][0], text + ADDED5[pid][1]
             if pid in ADDED6:
                 tech, text = tech + ADDED6[pid][0], text + ADDED6[pid][1]
+            if pid in ADDED7:
+                tech, text = tech + ADDED7[pid][0], text + ADDED7[pid][1]
             checks.append({
                 "property_id": pid,
                 "quick_cmd": f"./check {pid} --tier quick",
